@@ -236,6 +236,72 @@ pub fn c03_resolve_sr_any() {
     std::mem::forget(sr);
 }
 
+/// The conflict list is an accumulator over all states: a call made when the list already holds
+/// entries (free triples, possibly naming the same token and production in another state, or the very
+/// same triple) must leave them in place and append exactly one triple iff the default rule decided.
+#[kani::proof]
+#[kani::unwind(5)]
+pub fn c03_resolve_sr_history() {
+    let tp = [any_prec(), any_prec(), any_prec()];
+    let pp = [any_prec(), any_prec(), any_prec()];
+    let prods = vec![
+        vec![
+            Symbol::Rule(RIdx(1u8)),
+            Symbol::Token(TIdx(0)),
+            Symbol::Rule(RIdx(1)),
+        ],
+        vec![Symbol::Token(TIdx(1))],
+        vec![Symbol::Rule(RIdx(1))],
+    ];
+    let g = YaccGrammar::<u8>::verif_from_parts(
+        2,
+        3,
+        prods,
+        vec![RIdx(1u8), RIdx(1), RIdx(0)],
+        vec![tp[0], tp[1], tp[2]],
+        vec![pp[0], pp[1], pp[2]],
+        PIdx(2),
+    );
+    let t: u8 = kani::any();
+    let p: u8 = kani::any();
+    kani::assume(t < 3 && p < 3);
+    if let (Some(a), Some(b)) = (tp[t as usize], pp[p as usize]) {
+        kani::assume(a.level != b.level || a.kind == b.kind);
+    }
+    let target: u8 = kani::any();
+    let cst: u8 = kani::any();
+    let h: [(u8, u8, u8); 2] = kani::any();
+    kani::assume(h[0].0 < 3 && h[0].1 < 3 && h[1].0 < 3 && h[1].1 < 3);
+    let mut sr = Vec::with_capacity(4);
+    sr.push((TIdx(h[0].0), PIdx(h[0].1), StIdx(h[0].2)));
+    sr.push((TIdx(h[1].0), PIdx(h[1].1), StIdx(h[1].2)));
+    let mut actions = [StateTable::<u8>::verif_encode(Action::Reduce(PIdx(p))); 2];
+    StateTable::<u8>::verif_resolve_shift_reduce(
+        &g,
+        &mut actions,
+        1,
+        TIdx(t),
+        PIdx(p),
+        StIdx(target),
+        &mut sr,
+        StIdx(cst),
+    );
+    assert!(sr.len() >= 2, "earlier reports are kept");
+    assert!(sr[0] == (TIdx(h[0].0), PIdx(h[0].1), StIdx(h[0].2)), "earlier report 0 unchanged");
+    assert!(sr[1] == (TIdx(h[1].0), PIdx(h[1].1), StIdx(h[1].2)), "earlier report 1 unchanged");
+    match (tp[t as usize], pp[p as usize]) {
+        (None, _) | (_, None) => {
+            assert!(sr.len() == 3, "default resolution adds one report whatever was reported before");
+            assert!(sr[2] == (TIdx(t), PIdx(p), StIdx(cst)), "the report names this token, production and state");
+        }
+        _ => assert!(sr.len() == 2, "precedence-resolved conflicts are not recorded"),
+    }
+    kani::cover!(sr.len() == 3 && h[0].0 == t && h[0].1 == p && h[0].2 != cst, "same token and production reported in another state before");
+    kani::cover!(sr.len() == 3 && h[1] == (t, p, cst), "same triple reported before");
+    std::mem::forget(g);
+    std::mem::forget(sr);
+}
+
 /// Self-tests of the flag set (`--no-overflow-checks --no-memory-safety-checks` drop CBMC's own
 /// instrumentation): Rust-level arithmetic-overflow and index panics must still be reported.  The
 /// driver requires these two harnesses to FAIL with exactly that check.
